@@ -4,42 +4,66 @@
 (* `runtime::Memory<C>` against the property-level tape (TapeAbs).         *)
 (*                                                                         *)
 (* A recording is a sequence of completed calls                            *)
-(*     <<op, a1, a2, ret, allocs, failed>>                                 *)
+(*     <<op, a1, a2, ret, allocs, failed, q1, q2>>                         *)
 (*   op      "mov" | "read" | "write" | "acc" | "check"                    *)
 (*   a1, a2  arguments (offset / value token, range bounds)                *)
 (*   ret     value token returned by read, 0/1 returned by check           *)
 (*   allocs  allocation requests observed during the call                  *)
 (*   failed  allocation requests refused during the call (fault injection) *)
+(*   q1, q2  far parts of the arguments: the real argument was             *)
+(*           a1 + q1 * 2^62 (a2 + q2 * 2^62); 2^62 does not fit TLC's      *)
+(*           integers, so a logical position is kept as the pair           *)
+(*           (far, ptr) = far * 2^62 + ptr with a small ptr.  The machine  *)
+(*           has at most 2^64 bytes, so no cell at a position with         *)
+(*           far # 0 can ever be stored: reads there return 0, and a       *)
+(*           write or a non-empty accessibility request that touches such  *)
+(*           a position is unsatisfiable - it must end the process         *)
+(*           (abort or panic) and never return.  Histories keep            *)
+(*           |far| <= 3 (positions 2^64 apart are the same to the          *)
+(*           implementation; that limit is not judged).                    *)
 (* followed by how the history ended:                                      *)
 (*   end     "ok"  every call returned                                     *)
 (*           "abort" | "panic"  the process ended through the allocation   *)
 (*                   failure abort / a panic during the pending call       *)
 (*           "SIG..."  any other signal                                    *)
 (*   refused number of refused allocation requests in total                *)
+(*   pending the call that had not returned when the process ended         *)
 (***************************************************************************)
 EXTENDS TapeAbs, Json, IOUtils
 
 Cases == ndJsonDeserialize(IOEnv.CASES)
 
-VARIABLES t, l, verdict, why
-vars == <<abs, t, l, verdict, why>>
+VARIABLES t, l, verdict, why, far
+vars == <<abs, t, l, verdict, why, far>>
 
 Ev == Cases[t].events
 End == Cases[t].end
 Refused == Cases[t].refused
 
-Init == /\ AbsInit /\ t \in 1..Len(Cases) /\ l = 1 /\ verdict = "run" /\ why = <<>>
+Init == /\ AbsInit /\ t \in 1..Len(Cases) /\ l = 1 /\ verdict = "run" /\ why = <<>> /\ far = 0
+
+Q1(e) == IF Len(e) >= 7 THEN e[7] ELSE 0
+Q2(e) == IF Len(e) >= 8 THEN e[8] ELSE 0
+\* (q, a) pairs compare lexicographically (|a| is far below 2^62)
+Before(q1, a1, q2, a2) == q1 < q2 \/ (q1 = q2 /\ a1 < a2)
+\* a call that no machine can satisfy: it needs a cell at a position with far # 0
+Unsatisfiable(e) ==
+  \/ e[1] = "write" /\ far + Q1(e) # 0
+  \/ e[1] = "acc" /\ Before(Q1(e), e[2], Q2(e), e[3]) /\ (far + Q1(e) # 0 \/ far + Q2(e) # 0)
+HasPending == "pending" \in DOMAIN Cases[t] /\ Cases[t].pending # <<>>
 
 Decide(v, w) == verdict' = v /\ why' = w
 
 AtEnd ==
   /\ l = Len(Ev) + 1
-  /\ UNCHANGED <<abs, l>>
+  /\ UNCHANGED <<abs, l, far>>
   /\ IF End = "ok"
      THEN IF Refused = 0 THEN Decide("accepted", <<"complete", l - 1>>)
           ELSE Decide("rejected", <<"continued-after-refused-allocation">>)
      ELSE IF End \in {"abort", "panic"} /\ Refused > 0
           THEN Decide("accepted", <<"clean-abort-after-refused-allocation", l - 1>>)
+          ELSE IF End \in {"abort", "panic"} /\ HasPending /\ Unsatisfiable(Cases[t].pending)
+          THEN Decide("accepted", <<"clean-end-on-unsatisfiable-request", l - 1>>)
           ELSE Decide("rejected", <<"abnormal-end", End, Refused>>)
 
 Call ==
@@ -47,12 +71,29 @@ Call ==
   /\ l' = l + 1
   /\ LET e == Ev[l]  op == e[1] IN
      IF e[6] > 0
-     THEN /\ UNCHANGED abs
+     THEN /\ UNCHANGED <<abs, far>>
           /\ Decide("rejected", <<"call-returned-after-refused-allocation", l, op>>)
+     ELSE IF Unsatisfiable(e)
+     THEN /\ UNCHANGED <<abs, far>>
+          /\ Decide("rejected", <<"returned-from-unsatisfiable-request", l, op, far + Q1(e)>>)
      ELSE
-     CASE op = "mov" ->
+     /\ far' = IF op = "mov" THEN far + Q1(e) ELSE far
+     /\ CASE op = "mov" ->
             /\ AbsMov(e[2])
             /\ IF e[5] = 0 THEN Decide("run", why) ELSE Decide("rejected", <<"mov-allocated", l>>)
+       [] op = "read" /\ far + Q1(e) # 0 ->
+            \* no cell can be stored there
+            /\ ret' = <<"read", 0>> /\ UNCHANGED <<cells, ptr, accLo, accHi>>
+            /\ IF e[4] # 0 THEN Decide("rejected", <<"far-read-mismatch", l, "expected", 0, "observed", e[4]>>)
+               ELSE IF e[5] # 0 THEN Decide("rejected", <<"read-allocated", l>>)
+               ELSE Decide("run", why)
+       [] op = "check" /\ far + Q1(e) # 0 ->
+            \* nothing was ever requested there: any answer, but no allocation
+            /\ ret' = <<"check", e[4] = 1>> /\ UNCHANGED <<cells, ptr, accLo, accHi>>
+            /\ IF e[5] = 0 THEN Decide("run", why) ELSE Decide("rejected", <<"check-allocated", l>>)
+       [] op = "acc" /\ ~Before(Q1(e), e[2], Q2(e), e[3]) ->
+            \* an empty range requests nothing
+            /\ ret' = <<"acc">> /\ UNCHANGED <<cells, ptr, accLo, accHi>> /\ Decide("run", why)
        [] op = "read" ->
             /\ AbsRead(e[2])
             /\ IF ret' # <<"read", e[4]>>
